@@ -326,3 +326,14 @@ def subscript_optional(xs):
     if xs:
         return xs[0]
     return -7
+
+def index_then_slice(s):
+    i = s.index("=", s.index(":"))
+    a, b = s[:i], s[i+1:]
+    return len(a) * 100 + len(b)
+
+def rsplit_once(s):
+    parts = s.rsplit(":", 1)
+    if len(parts) == 2:
+        return len(parts[0]) * 100 + len(parts[1])
+    return -1 - len(parts[0])
